@@ -96,6 +96,9 @@ def rule_M8c(ctx, rid='M8'):
 
 
 def run(ctx):
+    from ..persist import rule_P17
+    k17 = rule_P17(ctx, only={'PhaseShift', 'NautilusBound'})      # periodic[i] <-> centers[i] survive the round trip
+    ctx.require(k17 >= 4, 'P17 saw only %d stored values (floor 4)' % k17)
     rule_M7(ctx)
     rule_M8c(ctx)
     n = rule_M6(ctx)
